@@ -40,6 +40,10 @@ Definition composer_of (f : Z * Z * bool * bool) : Composer :=
 Definition runarg_of (r : RunArg) : runarg :=
   mkRunArg (rg_run_no r) (rg_statement r) (rg_trace_threads r) (rg_trace_modules r).
 
+Definition arg_of (r : runarg) : RunArg :=
+  {| rg_run_no := ra_no r; rg_statement := ra_stmt r; rg_filename := Some SCRIPT_FILE_NAME;
+     rg_trace_threads := ra_threads r; rg_trace_modules := ra_modules r |}.
+
 Lemma put_get s : put_comp s (get_comp s) = s.
 Proof. destruct s; reflexivity. Qed.
 
@@ -53,12 +57,13 @@ Lemma composer_of_comp s : composer_of (comp s) = get_comp s.
 Proof. reflexivity. Qed.
 
 (** publications of the built-in plugins -> publications of the model.  The model does not track
-    the topic `script_file_name`; a publication this table does not know makes the whole list
-    undecodable ([None]), which no lemma below survives. *)
+    the topic `script_file_name`: what is published there must be the constant SCRIPT_FILE_NAME (then it
+    decodes to nothing).  A publication this table does not know, or an assert that fails in the
+    registrar ([None]), makes the whole list undecodable, which no lemma below survives. *)
 Definition decode (p : string * pubval) : option (list pub) :=
   match p with
   | (topic, PvStmt x) => if String.eqb topic "statement" then Some [PStatement x] else None
-  | (topic, PvStr _) => if String.eqb topic "script_file_name" then Some [] else None
+  | (topic, PvStr f) => if String.eqb topic "script_file_name" then (if String.eqb f SCRIPT_FILE_NAME then Some [] else None) else None
   | (topic, PvInt n) => if String.eqb topic "run_no" then Some [PRunNo n] else None
   | (topic, PvRunInfo r) =>
       if String.eqb topic "run_info" then
@@ -75,33 +80,46 @@ Fixpoint decode_all (l : list (string * pubval)) : option (list pub) :=
   | p :: r => match decode p, decode_all r with Some a, Some b => Some (a ++ b) | _, _ => None end
   end.
 
-Definition pubs_of (l : list (string * pubval)) : list pub :=
-  match decode_all l with Some ps => ps | None => [] end.
+(** the outcome of a registrar: [None] = AssertionError *)
+Definition decode_res (r : option (list (string * pubval))) : option (list pub) :=
+  match r with Some l => decode_all l | None => None end.
+
+Definition pubs_of (r : option (list (string * pubval))) : list pub :=
+  match decode_res r with Some ps => ps | None => [] end.
 
 Definition publish_all (s : state) (ps : list pub) : state := fold_left publish ps s.
 
 (** ---- the registrars ---- *)
 
-Lemma tie_script_registrar : forall x f,
-  decode_all (ScriptRegistrar_on_change_script x f) = Some [PStatement x].
+(** ScriptRegistrar.on_change_script does not read the context; given the composer's file name it publishes
+    the script (and the file name, which the model does not track) *)
+Lemma tie_script_registrar : forall cx x,
+  decode_res (ScriptRegistrar_on_change_script cx x SCRIPT_FILE_NAME) = Some [PStatement x].
 Proof. reflexivity. Qed.
 
 Lemma tie_run_no_registrar : forall ra,
-  decode_all (RunNoRegistrar_on_initialize_run (HookContext_mk ra)) = Some [PRunNo (rg_run_no ra)].
+  decode_res (RunNoRegistrar_on_initialize_run (HookContext_mk (Some ra))) = Some [PRunNo (rg_run_no ra)].
 Proof. reflexivity. Qed.
 
 (** the statement of the model is a script string *)
 Lemma tie_run_info_registrar : forall ra,
-  decode_all (RunInfoRegistrar_on_initialize_run (HookContext_mk ra) true)
+  decode_res (RunInfoRegistrar_on_initialize_run (HookContext_mk (Some ra)) true)
   = Some [PRunInfo (rg_run_no ra) RInitialized (rg_statement ra) None].
 Proof. reflexivity. Qed.
 
-Lemma tie_registrars : forall ra x f,
-  decode_all (ScriptRegistrar_on_change_script x f) = Some [PStatement x] /\
-  decode_all (RunNoRegistrar_on_initialize_run (HookContext_mk ra)) = Some [PRunNo (rg_run_no ra)] /\
-  decode_all (RunInfoRegistrar_on_initialize_run (HookContext_mk ra) true)
+Lemma tie_registrars : forall ra cx x,
+  decode_res (ScriptRegistrar_on_change_script cx x SCRIPT_FILE_NAME) = Some [PStatement x] /\
+  decode_res (RunNoRegistrar_on_initialize_run (HookContext_mk (Some ra))) = Some [PRunNo (rg_run_no ra)] /\
+  decode_res (RunInfoRegistrar_on_initialize_run (HookContext_mk (Some ra)) true)
     = Some [PRunInfo (rg_run_no ra) RInitialized (rg_statement ra) None].
-Proof. intros ra x f. exact (conj (tie_script_registrar x f) (conj (tie_run_no_registrar ra) (tie_run_info_registrar ra))). Qed.
+Proof. intros ra cx x. exact (conj (tie_script_registrar cx x) (conj (tie_run_no_registrar ra) (tie_run_info_registrar ra))). Qed.
+
+(** their asserts (`assert context.run_arg`): without a run_arg they raise and publish nothing; the model
+    calls on_initialize_run only right after storing run_arg ([gen_initialize_run]) *)
+Lemma registrars_assert : forall b,
+  RunNoRegistrar_on_initialize_run (HookContext_mk None) = None /\
+  RunInfoRegistrar_on_initialize_run (HookContext_mk None) b = None.
+Proof. intros b. split; reflexivity. Qed.
 
 (** ---- init ---- *)
 
@@ -119,7 +137,7 @@ Proof. reflexivity. Qed.
 Definition gen_initialize_run (s : state) : state :=
   let '(ra, c) := RunArgComposer_compose_run_arg (get_comp s) in
   let s2 := set_run_arg (put_comp s c) (Some (runarg_of ra)) in
-  let cx := HookContext_mk ra in
+  let cx := HookContext_mk (Some ra) in
   let s3 := publish_all s2 (pubs_of (RunNoRegistrar_on_initialize_run cx) ++ pubs_of (RunInfoRegistrar_on_initialize_run cx true)) in
   log_hook s3 HInitRun (Some (rg_statement ra)) None.
 
@@ -131,23 +149,24 @@ Proof. intros s. destruct s; reflexivity. Qed.
 Definition gen_hook_script (s : state) (h : hookcall) : state :=
   match h with
   | OnChangeScript x f =>
-    log_hook (publish_all s (pubs_of (ScriptRegistrar_on_change_script x f))) HChangeScript (Some x) None
+    log_hook (publish_all s (pubs_of (ScriptRegistrar_on_change_script (HookContext_mk (option_map arg_of (run_arg s))) x f)))
+             HChangeScript (Some x) None
   end.
 
 (** ---- start = [enter_start] ---- *)
 
-Definition gen_enter_start (s : state) (t : nat) (c : call) : state :=
+Definition gen_enter_start (s : state) (t : nat) (c : call) : option state :=
   match st_fsm s with
   | Created =>
     let s1 := log_hook s HStart None None in
     match RunArgComposer_start (get_comp s1) with
-    | Await c' h _ => set_pc (gen_hook_script (put_comp s1 c') h) t c S_G1
-    | Ret c' => set_pc (put_comp s1 c') t c S_G2
+    | Await c' h _ => Some (set_pc (gen_hook_script (put_comp s1 c') h) t c S_G1)
+    | Ret _ | Raise _ => None        (* not what the model does *)
     end
-  | _ => refuse s t c
+  | _ => Some (refuse s t c)
   end.
 
-Theorem tie_enter_start : forall s t c, enter_start s t c = gen_enter_start s t c.
+Theorem tie_enter_start : forall s t c, Some (enter_start s t c) = gen_enter_start s t c.
 Proof. intros s t c. unfold enter_start, gen_enter_start. destruct s as [f]; destruct f; reflexivity. Qed.
 
 (** after the gate of on_change_script, start does nothing more (the model goes on with
@@ -159,32 +178,33 @@ Proof. intros c. eexists. split; [reflexivity | reflexivity]. Qed.
 
 (** ---- reset = [enter_reset] up to the gate, [apply_rest] after it ---- *)
 
-Definition gen_enter_reset (s : state) (t : nat) (o : opts) : state :=
+Definition gen_enter_reset (s : state) (t : nat) (o : opts) : option state :=
   match st_fsm s with
   | Initialized | Finished =>
     let s1 := log_hook s HReset (o_stmt o) (o_start o) in
     match RunArgComposer_reset (get_comp s1) (ropts o) with
-    | Await c h _ => set_pc (gen_hook_script (put_comp s1 c) h) t (CReset o) Z_G1
-    | Ret c => set_pc (put_comp s1 c) t (CReset o) Z_G1b
+    | Await c h _ => Some (set_pc (gen_hook_script (put_comp s1 c) h) t (CReset o) Z_G1)
+    | Ret c => Some (set_pc (put_comp s1 c) t (CReset o) Z_G1b)
+    | Raise _ => None                (* the model's reset hook never raises *)
     end
-  | _ => refuse s t (CReset o)
+  | _ => Some (refuse s t (CReset o))
   end.
 
-Theorem tie_enter_reset : forall s t o, enter_reset s t o = gen_enter_reset s t o.
+Theorem tie_enter_reset : forall s t o, Some (enter_reset s t o) = gen_enter_reset s t o.
 Proof.
   intros s t o. unfold enter_reset, gen_enter_reset.
   destruct o as [[x|] [n|] [b|] [m|]]; destruct s as [f]; destruct f; reflexivity.
 Qed.
 
 (** the continuation of the reset that was suspended in state [s0], resumed in state [s] *)
-Definition gen_resume_reset (s0 s : state) (o : opts) : state :=
+Definition gen_resume_reset (s0 s : state) (o : opts) : option state :=
   match RunArgComposer_reset (get_comp s0) (ropts o) with
-  | Await _ _ k => match k (get_comp s) with Ret c => put_comp s c | Await _ _ _ => s end
-  | Ret _ => s
+  | Await _ _ k => match k (get_comp s) with Ret c => Some (put_comp s c) | _ => None end
+  | _ => None
   end.
 
 (** the step at Z_G1 (the model is at Z_G1 only with a statement given) *)
-Theorem tie_resume_reset : forall s0 s o, o_stmt o <> None -> apply_rest s o = gen_resume_reset s0 s o.
+Theorem tie_resume_reset : forall s0 s o, o_stmt o <> None -> Some (apply_rest s o) = gen_resume_reset s0 s o.
 Proof.
   intros s0 s o H. unfold apply_rest, gen_resume_reset.
   destruct o as [[x|] [n|] [b|] [m|]]; try (exfalso; apply H; reflexivity); destruct s; reflexivity.
@@ -192,10 +212,19 @@ Qed.
 
 (** a method run to its end when nothing else touches the composer while it is suspended *)
 Fixpoint finish (r : susp) : Composer :=
-  match r with Ret c => c | Await c _ k => finish (k c) end.
+  match r with Ret c => c | Raise c => c | Await c _ k => finish (k c) end.
 
 Fixpoint hooks_in (r : susp) : list hookcall :=
-  match r with Ret _ => [] | Await c h k => h :: hooks_in (k c) end.
+  match r with Ret _ | Raise _ => [] | Await c h k => h :: hooks_in (k c) end.
+
+(** an assert of the method fails on the way *)
+Fixpoint raises (r : susp) : bool :=
+  match r with Ret _ => false | Raise _ => true | Await c _ k => raises (k c) end.
+
+(** the composer that is left when the awaited hook raises, or the task is cancelled while suspended there.
+    The translator refuses `try` / `with` in these methods, so nothing of the method runs after that point. *)
+Definition interrupted_at_hook (r : susp) : option Composer :=
+  match r with Await c _ _ => Some c | Ret _ | Raise _ => None end.
 
 (** both segments together: the model's reset (statement first, the rest after the gate) *)
 Definition model_reset (s : state) (o : opts) : state :=
@@ -213,6 +242,24 @@ Theorem tie_reset_merged : forall c o,
 Proof. intros [[[a b] x] y] o. destruct o as [[x'|] [n|] [b'|] [m|]]; reflexivity. Qed.
 
 (** ---- corollaries on the generated functions ---- *)
+
+(** neither start nor reset contains an assert that can fail: they raise only if the awaited hook does *)
+Theorem never_raises : forall c o,
+  raises (RunArgComposer_reset c o) = false /\ raises (RunArgComposer_start c) = false /\
+  (forall c1 k, RunArgComposer_reset c o = Await (set_statement c (dflt (a_statement c) (ro_statement o)))
+                                             (OnChangeScript (dflt (a_statement c) (ro_statement o)) (a_filename c)) k ->
+                raises (k c1) = false).
+Proof.
+  intros c o. destruct o as [[x|] [n|] [b|] [m|]]; destruct c; repeat split; try reflexivity;
+    intros c1 k H; try discriminate H; injection H as <-; reflexivity.
+Qed.
+
+(** NOT in the model (it has no label for a raising hook or a cancellation; DESIGN 6.1 excludes raising plugins):
+    if on_change_script raises inside reset, or the task is cancelled there, the composer keeps the new
+    statement and NONE of the other options -- the exception propagates out of reset() *)
+Theorem reset_interrupted_at_hook : forall c o,
+  interrupted_at_hook (RunArgComposer_reset c o) = option_map (set_statement c) (ro_statement o).
+Proof. intros c o. destruct o as [[x|] [n|] [b|] [m|]]; reflexivity. Qed.
 
 (** a reset applies exactly the options that were given and nothing else (an option that is None
     leaves the attribute alone, an option that is given -- False and 0 included -- replaces it; the file
